@@ -45,6 +45,31 @@ class Ctx:
             raise AnalysisBroken(msg)
 
 
+_BORROW = {}
+
+
+def borrow(ctx, pid, rules, note):
+    """Run property `pid`'s rule module on the same program (once per process) and take over the named rules, with their
+    obligations and findings, into ctx: a rule that decides a clause of two properties is written once and reported by both."""
+    key = (pid, id(ctx.prog), ctx.tier)
+    if key not in _BORROW:
+        mod = importlib.import_module('rules.' + pid)
+        c2 = Ctx(pid, ctx.tier, ctx.prog)
+        mod.run(c2)
+        _BORROW[key] = c2
+    c2 = _BORROW[key]
+    for r in rules:
+        if r not in c2.rules:
+            raise AnalysisBroken('borrowed rule %s not registered by %s' % (r, pid))
+        R = c2.rules[r]
+        ctx.rule(r, '[shared with %s: %s] %s' % (pid, note, R['text']), floor=R['floor'])
+        ctx.rules[r]['inst'].extend(R['inst'])
+        ctx.rules[r]['fixture'] = R['fixture']
+        for f in c2.findings:
+            if f['rule'] == r:
+                ctx.findings.append(dict(f))
+
+
 def load_known(pid):
     out = {}
     if os.path.exists(KNOWN):
